@@ -21,7 +21,7 @@ def threads_model(chk, n, plen, bug, expect):
     shutil.rmtree(work, ignore_errors=True)
 
 
-def run_threads(chk, flavor, nthreads, rounds, hs, label):
+def run_threads(chk, flavor, nthreads, rounds, hs, label, relevant=None):
     work = vlib.scratch(label)
     hist = work / "hist.ndjson"
     hist.write_text("\n".join(json.dumps(h) for h in hs) + "\n")
@@ -57,7 +57,7 @@ def run_threads(chk, flavor, nthreads, rounds, hs, label):
             f.write_text("\n".join(good) + "\n")
     files = vlib.split_traces(files, reset="R")
     merged = vlib.validate_traces("TraceExporter", files, constants={"XBug": '"none"'}, timeout=2400, label=label + "tv", xmx="4g")
-    chk.add_traces(merged, relevant=None)
+    chk.add_traces(merged, relevant=relevant)
     shutil.rmtree(work, ignore_errors=True)
     return merged
 
